@@ -107,14 +107,6 @@ Qed.
 
 (** * End to end: library client against library server *)
 
-Definition jver_of (x : option str) : jver :=
-  match x with Some s => JStr s | None => JNonStr end.
-
-(** the response the server model produces for a request proposing [p]: a
-    result object with its protocolVersion, its own serverInfo and capabilities *)
-Definition server_response (p : str) : answer :=
-  AResult (Some (jver_of (server_answer (RStr p)))) true.
-
 Section Handshake.
   Variable arg : option (list str).        (* the client's supported list (None = the library's) *)
   Variable pref : option str.
